@@ -1,19 +1,31 @@
 import CpModel.Proto
 import CpModel.SessionStore
 /-!
-  Driver for C14 (session store).  One history per line, five space-separated fields:
+  Driver for C14 (session store).  One history per line, six space-separated fields:
 
-    <ram|file> <timeout> <D:0|1> <G: id,id,…|-> <op;op;…>
+    <ram|file|mem> <timeout> <D:0|1> <G: id,id,…|-> <C> <op;op;…>
 
   G is the id source (`generate_id` draws, as numbered by the harness; beyond the script the source
-  yields n+1, the number of the draw).  Ops:
-    q/<cookie>/<hops>   cookie = n | i<id> | e<id>   hops = - | hop+hop+…
-                        hop = r | w.<k>.<v> | k.<k> | c | g | d | x
+  yields n+1, the number of the draw).  C is the cookie configuration
+  `name.path.pathHeader.domain.secure.httponly.persistent` (`-` = None).  `mem` is the self-expiring
+  store (`memStep`; the listing shown is what the store still returns).  Ops:
+    q/<cookie>/<hops>   cookie = n | i<id> | e<id> | p<name>:<i..|e..>,<name>:<i..|e..>,… (the pairs
+                        of the Cookie header in order; `presentedOf` picks)
+                        hops = - | hop+hop+…
+                        hop = r | w.<k>.<v> | k.<k> | c | g | d | x | L | E
+                            | A.get.<k> | A.in.<k> | A.sd.<k>.<v> | A.up.<k>.<v>[.<k>.<v>…] | A.pop.<k> | A.del.<k>
+    o/<cookieA>/<preA>/<postA>/<cookieB>/<hopsB>    two overlapping requests (`overlap`)
     a<d>   s | s<id>,<id>,… (listing order of the files)   t<id>.<eof|unp|oth>
   Output: one item per op joined by `;`, item = `<out>@<listing>`,
-    out     = R:<ok|400|500|div>:<cookie id|->:<0|1>:<reads>   |  done  |  aborted
+    out     = R:<resp>  |  O:<respA>|<respB>  |  done  |  aborted
+    resp    = <ok|400|500|div>:<cookie id|->:<0|1>:<reads>:L<lens>:C<attrs>:P<presented: n|i<id>|e<id>|->
     reads   = - | dict/dict/…      dict = ~ | k=v,k=v (sorted)
+    lens    = - | n,n,…
+    attrs   = - | name.path.maxage.expires.domain.secure.httponly   (`-` = absent; times in seconds from tick 0)
     listing = ~ | entry!entry…     entry = id:g:<exp>:<dict> | id:b:<eof|unp|oth>   (sorted by id)
+
+  A line `mon <cls>.<freq>,<cls>.<freq>,…` runs `loadsMonitor` from no Monitor and prints
+  `<number started>;<cls>:<period>,…` (sorted by class).
 -/
 open CpModel CpModel.SessionStore
 
@@ -26,8 +38,21 @@ def parseExc (s : String) : Option PExc :=
 def showExc : PExc → String
   | .eof => "eof" | .unpickling => "unp" | .other => "oth"
 
+def parsePairs : List String → Option (List (Key × Val))
+  | [] => some []
+  | [_] => none
+  | k :: v :: rest => do pure ((← k.toNat?, ← v.toNat?) :: (← parsePairs rest))
+
 def parseHop (s : String) : Option HOp :=
   match s.splitOn "." with
+  | ["L"] => some .len
+  | ["E"] => some .raise
+  | ["A", "get", k] => do pure (.acc (.get (← k.toNat?)))
+  | ["A", "in", k] => do pure (.acc (.contains (← k.toNat?)))
+  | ["A", "sd", k, v] => do pure (.acc (.setdefault (← k.toNat?) (← v.toNat?)))
+  | "A" :: "up" :: kvs => do pure (.acc (.update (← parsePairs kvs)))
+  | ["A", "pop", k] => do pure (.acc (.popStrict (← k.toNat?)))
+  | ["A", "del", k] => do pure (.acc (.delitem (← k.toNat?)))
   | ["r"] => some .read
   | ["c"] => some .clear
   | ["g"] => some .regenerate
@@ -40,26 +65,44 @@ def parseHop (s : String) : Option HOp :=
 def parseHops (s : String) : Option (List HOp) :=
   if s == "-" then some [] else (s.splitOn "+").mapM parseHop
 
-def parseCookie (s : String) : Option Cookie :=
+def parseCookie1 (s : String) : Option Cookie :=
   if s == "n" then some .none
   else if s.startsWith "i" then (s.drop 1).toString.toNat?.map .id
   else if s.startsWith "e" then (s.drop 1).toString.toNat?.map .escaping
   else none
+
+/-- a single cookie, or the pairs of the Cookie header (then `presentedOf` with the configured name) -/
+def parseCookie (name : Nat) (s : String) : Option Cookie :=
+  if s.startsWith "p" then do
+    let pairs ← ((s.drop 1).toString.splitOn ",").mapM fun t =>
+      match t.splitOn ":" with
+      | [n, c] => do pure (← n.toNat?, ← parseCookie1 c)
+      | _ => none
+    pure (presentedOf name pairs)
+  else parseCookie1 s
 
 /-- `s` or `s<id>,<id>,…`: the sweep, optionally with the order in which `os.listdir` yields the files -/
 def parseSweepOrder (s : String) : Option (List Nat) :=
   if s == "s" then some [] else
   if s.startsWith "s" then ((s.drop 1).toString.splitOn ",").mapM (·.toNat?) else none
 
-def parseOp (s : String) : Option Op :=
-  if s == "s" || (s.startsWith "s" && (parseSweepOrder s).isSome) then some .sweep
-  else if s.startsWith "a" then (s.drop 1).toString.toNat?.map .advance
+/-- an operation of the history: a model `Op`, or two overlapping requests -/
+inductive DOp where
+  | op (o : Op)
+  | overlap (cA : Cookie) (preA postA : List HOp) (cB : Cookie) (hopsB : List HOp)
+
+def parseOp (name : Nat) (s : String) : Option DOp :=
+  if s == "s" || (s.startsWith "s" && (parseSweepOrder s).isSome) then some (.op .sweep)
+  else if s.startsWith "a" then (s.drop 1).toString.toNat?.map fun d => .op (.advance d)
   else if s.startsWith "t" then
     match (s.drop 1).toString.splitOn "." with
-    | [i, e] => do pure (.tear (← i.toNat?) (← parseExc e))
+    | [i, e] => do pure (.op (.tear (← i.toNat?) (← parseExc e)))
     | _ => none
   else match s.splitOn "/" with
-    | ["q", c, hs] => do pure (.req (← parseCookie c) (← parseHops hs))
+    | ["q", c, hs] => do pure (.op (.req (← parseCookie name c) (← parseHops hs)))
+    | ["o", ca, pre, post, cb, hb] => do
+      pure (.overlap (← parseCookie name ca) (← parseHops pre) (← parseHops post)
+                     (← parseCookie name cb) (← parseHops hb))
     | _ => none
 
 def parseGen (s : String) : Option (List Nat) :=
@@ -81,13 +124,47 @@ def showListing (s : Store) : String :=
     | .good d e => s!"{p.1}:g:{e}:{showDict d}"
     | .bad e => s!"{p.1}:b:{showExc e}")
 
-def showOut : Out → String
-  | .done => "done"
-  | .sweepAborted => "aborted"
-  | .resp r =>
-    let ck := match r.cookie with | none => "-" | some i => toString i
-    let rd := if r.reads.isEmpty then "-" else "/".intercalate (r.reads.map showDict)
-    s!"R:{showStatus r.status}:{ck}:{if r.expired then 1 else 0}:{rd}"
+def showOptNat : Option Nat → String
+  | none => "-"
+  | some n => toString n
+
+def showCookieOut (c : CookieOut) : String :=
+  let ex := match c.expires with | none => "-" | some x => toString x
+  s!"{c.name}.{c.path}.{showOptNat c.maxAge}.{ex}.{showOptNat c.domain}.{if c.secure then 1 else 0}.{if c.httponly then 1 else 0}"
+
+/-- a response; `fin` = the final session object (`none`: the request was refused before it had one) -/
+def showCookie : Cookie → String
+  | .none => "n"
+  | .id c => s!"i{c}"
+  | .escaping c => s!"e{c}"
+
+def showResp (cfg : Cfg) (now : Nat) (c : Cookie) (r : Resp) (fin : Option Sess) : String :=
+  let ck := match r.cookie with | none => "-" | some i => toString i
+  let rd := if r.reads.isEmpty then "-" else "/".intercalate (r.reads.map showDict)
+  let ln := match fin with
+    | some s => if s.lens.isEmpty then "-" else ",".intercalate (s.lens.map toString)
+    | none => "-"
+  let attrs := match fin with
+    | some s => showCookieOut (finalCookie cfg now s)
+    | none => "-"
+  let pr := match fin with
+    | some _ => showCookie c
+    | none => "-"
+  s!"{showStatus r.status}:{ck}:{if r.expired then 1 else 0}:{rd}:L{ln}:C{attrs}:P{pr}"
+
+/-- `overlap`, also handing out A's final session object (same control flow) -/
+def overlapS (cfg : Cfg) (st : St) (cA : Cookie) (preA postA : List HOp) (cB : Cookie) (hopsB : List HOp) :
+    Option Sess × Option Sess :=
+  let finB := fun (st1 : St) => (requestS cfg st1 cB hopsB).2.2
+  match initSess cfg st cA with
+  | .error _ => (none, finB st)
+  | .ok (s0, st0) =>
+    match runHops cfg st0 s0 preA with
+    | .fail _ st1 s1 => (some s1, finB st1)
+    | .ok st1 s1 =>
+      match runHops cfg (request cfg st1 cB hopsB).1 s1 postA with
+      | .ok _ s2 => (some s2, finB st1)
+      | .fail _ _ s2 => (some s2, finB st1)
 
 /-- arrange the store (a permutation) in the order the directory listing yields the files -/
 def reorder (s : Store) (ord : List Nat) : Store :=
@@ -95,27 +172,64 @@ def reorder (s : Store) (ord : List Nat) : Store :=
   let first := ord.filterMap fun i => (lookup s i).map fun r => (i, r)
   first ++ s.filter fun p => !ord.contains p.1
 
-def runShow (cfg : Cfg) : St → List (Op × List Nat) → List String
+def runShow (cfg : Cfg) (mem : Bool) : St → List (DOp × List Nat) → List String
   | _, [] => []
-  | st, (o, ord) :: os =>
-    let st := match o with | .sweep => { st with store := reorder st.store ord } | _ => st
-    let r := step cfg st o
-    (showOut r.2 ++ "@" ++ showListing r.1.store) :: runShow cfg r.1 os
+  | st, (dop, ord) :: os =>
+    let st := if mem then memView st else st
+    let view := fun (s : St) => if mem then (memView s).store else s.store
+    match dop with
+    | .op o =>
+      let st := match o with | .sweep => { st with store := reorder st.store ord } | _ => st
+      let r := step cfg st o
+      let out := match o, r.2 with
+        | .req c hops, .resp rr => "R:" ++ showResp cfg st.now c rr (requestS cfg st c hops).2.2
+        | _, .sweepAborted => "aborted"
+        | _, _ => "done"
+      (out ++ "@" ++ showListing (view r.1)) :: runShow cfg mem r.1 os
+    | .overlap cA preA postA cB hopsB =>
+      let r := overlap cfg st cA preA postA cB hopsB
+      let fins := overlapS cfg st cA preA postA cB hopsB
+      ("O:" ++ showResp cfg st.now cA r.2.1 fins.1 ++ "|" ++ showResp cfg st.now cB r.2.2 fins.2 ++ "@" ++
+        showListing (view r.1)) :: runShow cfg mem r.1 os
+
+def parseOptNat (s : String) : Option (Option Nat) :=
+  if s == "-" then some none else s.toNat?.map some
+
+def parseBool (s : String) : Option Bool :=
+  if s == "1" then some true else if s == "0" then some false else none
+
+def parseCookieCfg (s : String) : Option CookieCfg :=
+  match s.splitOn "." with
+  | [n, p, ph, d, sec, ho, pers] => do
+    pure { name := ← n.toNat?, path := ← parseOptNat p, pathHeader := ← parseOptNat ph,
+           domain := ← parseOptNat d, secure := ← parseBool sec, httponly := ← parseBool ho,
+           persistent := ← parseBool pers }
+  | _ => none
+
+def monStep (arg : String) : Option String := do
+  let ls ← (if arg == "-" then some [] else (arg.splitOn ",").mapM fun t =>
+    match t.splitOn "." with
+    | [c, f] => do pure (← c.toNat?, ← f.toNat?)
+    | _ => none)
+  let r := loadsMonitor [] ls
+  pure (s!"{r.2};" ++ ",".intercalate ((sortPairs r.1).map fun p => s!"{p.1}:{p.2}"))
 
 def step (line : String) : String :=
   match Proto.fields line with
-  | [b, t, d, g, ops] =>
+  | ["mon", arg] => (monStep arg).getD "bad-op"
+  | [b, t, d, g, c, ops] =>
     let r : Option String := do
-      let file ← (if b == "ram" then some false else if b == "file" then some true else none)
+      let file ← (if b == "ram" || b == "mem" then some false else if b == "file" then some true else none)
       let timeout ← t.toNat?
-      let df ← (if d == "1" then some true else if d == "0" then some false else none)
+      let df ← parseBool d
       let script ← parseGen g
+      let cc ← parseCookieCfg c
       let opl ← (ops.splitOn ";").mapM fun t => do
-        let o ← parseOp t
-        pure (o, match o with | .sweep => (parseSweepOrder t).getD [] | _ => [])
+        let o ← parseOp cc.name t
+        pure (o, match o with | .op .sweep => (parseSweepOrder t).getD [] | _ => [])
       let cfg : Cfg := { file := file, timeout := timeout, deleteForgets := df,
-                         gen := fun n => script.getD n (n + 1) }
-      pure (";".intercalate (runShow cfg {} opl))
+                         gen := fun n => script.getD n (n + 1), cookie := cc }
+      pure (";".intercalate (runShow cfg (b == "mem") {} opl))
     r.getD "bad-op"
   | _ => "bad-op"
 
